@@ -247,6 +247,15 @@ theorem history_independent (sol : Solver ℝ ns nc) (S : Sys ℝ ns nc) (ops : 
     | setClock v => simp only [runHistory, freshSolves]; rw [ih]
     | forward n => simp only [runHistory, freshSolves]; rw [ih]
 
+/-- the per-call argument `dt` is irrelevant for systems whose linearisation does not depend on time (LTI):
+calls with different `dt` on one object return the same result -/
+theorem lqr_dt_irrelevant (sol : Solver ℝ ns nc) (S : Sys ℝ ns nc) (P : Prob ℝ ns nc) (dt dt' : Nat) (x0 : Vec ℝ ns)
+    (ubar : Nat → Vec ℝ nc)
+    (hA : ∀ t t' x u, S.A t x u = S.A t' x u) (hB : ∀ t t' x u, S.B t x u = S.B t' x u) :
+    lqr sol S P dt x0 ubar = lqr sol S P dt' x0 ubar := by
+  unfold lqr lqrAt
+  simp only [bwFrom_dt sol S P dt dt' _ ubar hA hB P.T 0]
+
 /-! ### MPC -/
 
 /-- the value returned by `MPC.forward` is one LQR solve around the best inputs of the loop -/
@@ -289,6 +298,34 @@ theorem mpc_fuel_irrelevant (sol : Solver ℝ ns nc) (S : Sys ℝ ns nc) (P : Pr
       push_cast; omega
     · push_cast; omega)
   simp only [h]
+
+/-- the state a stepper carries (`last`, `steps`, `_continual`, `patience_count`) is irrelevant to a call: two
+steppers with the same constructor arguments give the same result, iteration count and final stepper -/
+theorem mpc_stepper_state_irrelevant (sol : Solver ℝ ns nc) (S : Sys ℝ ns nc) (P : Prob ℝ ns nc) (dt : Nat) (x0 : Vec ℝ ns)
+    (fuel : Nat) (st st' : Stepper ℝ) (uinit : Option (List (Vec ℝ nc))) (h : SameParams st st') :
+    mpc sol S P dt x0 fuel st uinit = mpc sol S P dt x0 fuel st' uinit := by
+  unfold mpc
+  rw [reset_eq_of_sameParams h]
+
+/-- **re-using one MPC object**: any sequence of calls (each with its own problem, start, initial inputs)
+threading one stepper object returns, call by call, what a fresh stepper would return — outputs and iteration
+counts; nothing leaks from call to call (any system) -/
+theorem mpc_sequence_independent (sol : Solver ℝ ns nc) (S : Sys ℝ ns nc) (calls : List (MpcCall ns nc)) :
+    ∀ (st st0 : Stepper ℝ), SameParams st st0 →
+      mpcSeq sol S calls st
+        = calls.map fun c => ((mpc sol S c.P c.dt c.x0 c.fuel st0 c.uinit).1, (mpc sol S c.P c.dt c.x0 c.fuel st0 c.uinit).2.2) := by
+  induction calls with
+  | nil => intro st st0 _; rfl
+  | cons c rest ih =>
+    intro st st0 h
+    simp only [mpcSeq, List.map_cons]
+    rw [mpc_stepper_state_irrelevant sol S c.P c.dt c.x0 c.fuel st st0 c.uinit h]
+    congr 1
+    apply ih
+    have h1 : SameParams (mpc sol S c.P c.dt c.x0 c.fuel st0 c.uinit).2.1 st0 := by
+      unfold mpc
+      exact (mpcLoop_sameParams sol S c.P c.dt c.x0 c.fuel _ _ _ _).trans (reset_sameParams st0)
+    exact h1
 
 /-- **MPC on a nonlinear (or any) system**: the returned trajectory starts at `x_init`, satisfies the system's
 own transition at every step, and the returned cost is the sum of the stage costs along it — for every
